@@ -33,6 +33,10 @@ type spec struct {
 	Items   int         `json:"items"`
 	Density int         `json:"density"` // a litestream op is inserted after an application step with probability Density/10
 	Cfg     hist.Config `json:"cfg"`
+	// DiskFull: the litestream meta directory (local LTX staging area) lives on its own
+	// small tmpfs and about one litestream operation in five runs while that file system
+	// is full (every write litestream issues there fails with ENOSPC)
+	DiskFull bool `json:"disk_full,omitempty"`
 }
 
 func init() {
@@ -71,6 +75,28 @@ func cases(run *vf.Run) ([]json.RawMessage, error) {
 			Items:   45 + rng.Intn(30),
 			Density: 2 + rng.Intn(4),
 			Cfg:     cfg,
+		}))
+	}
+	// local disk-full episodes (appended so that the cases above keep their indices)
+	nf := 12
+	if run.Tier == "thorough" {
+		nf = 200
+	}
+	for i := 0; i < nf; i++ {
+		rng := rand.New(rand.NewSource(vf.SubSeed(run.Seed, "C14F", i)))
+		cfg := hist.RandomConfig(rng)
+		cfg.PageSize = hist.PageSizes[(i+2)%len(hist.PageSizes)]
+		cfg.AutoVacuum = i % 3
+		if i%2 == 0 {
+			cfg.MinCheckpointPageN = 1 + rng.Intn(5)
+		}
+		out = append(out, vf.Spec(spec{
+			Seed:     vf.SubSeed(run.Seed, "C14F-app", i),
+			LSSeed:   vf.SubSeed(run.Seed, "C14F-ls", i),
+			Items:    45 + rng.Intn(30),
+			Density:  4 + rng.Intn(3),
+			Cfg:      cfg,
+			DiskFull: true,
 		}))
 	}
 	return out, nil
@@ -195,6 +221,7 @@ type world struct {
 	trace []string // everything the application read
 
 	ls       *litestream.DB
+	meta     string // meta directory on its own tmpfs ("" = no disk-full episodes)
 	logs     *hist.LogCapture
 	lsRng    *rand.Rand
 	lsOps    []string
@@ -224,6 +251,8 @@ func (w *world) logf(format string, a ...any) {
 	}
 	w.res.Logf(tag+" "+format, a...)
 }
+
+var errBlocked = fmt.Errorf("application blocked")
 
 func isBusy(err error) bool {
 	if err == nil {
@@ -298,7 +327,30 @@ func (w *world) lsOp(ctx context.Context) {
 	rng := w.lsRng
 	var name string
 	var err error
-	switch r := rng.Intn(20); {
+	full := false
+	if w.meta != "" && rng.Intn(5) == 0 {
+		if ferr := hist.FillFS(w.meta); ferr != nil {
+			w.res.HarnessErr = "fill meta fs: " + ferr.Error()
+			return
+		}
+		full = true
+		w.res.Count("diskfull_episodes", 1)
+		defer func() {
+			if ferr := hist.FreeFS(w.meta); ferr != nil && w.res.HarnessErr == "" {
+				w.res.HarnessErr = "free meta fs: " + ferr.Error()
+			}
+		}()
+	}
+	defer func() {
+		if full && err != nil {
+			w.res.Count("ls_failed_while_disk_full", 1)
+		}
+	}()
+	r := rng.Intn(20)
+	if full && r >= 16 {
+		r %= 16 // no Close/Open while the disk is full: a failing Open is legitimate there
+	}
+	switch {
 	case r < 5:
 		name = "Sync"
 		err = w.ls.Sync(ctx)
@@ -424,6 +476,14 @@ func (w *world) replay(ctx context.Context, s spec, h []step) error {
 	}
 	if w.treatment {
 		w.ls = w.newLS()
+		if s.DiskFull {
+			w.meta = w.ls.MetaPath()
+			if err := hist.MountTmpfs(w.meta, 64); err != nil {
+				w.res.Count("local_fault_unavailable(mount failed)", 1)
+				w.logf("no disk-full episodes in this case: %v", err)
+				w.meta = ""
+			}
+		}
 		if err := w.ls.Open(); err != nil {
 			return fmt.Errorf("litestream open: %w", err)
 		}
@@ -441,6 +501,19 @@ func (w *world) replay(ctx context.Context, s spec, h []step) error {
 				w.busyRetr++
 				w.logf("step %d busy (%v), retrying the same statement", i, err)
 				if try >= 200 {
+					if w.treatment {
+						// The control run executed the same statement without contention and no
+						// litestream call is in flight (the history is sequential): litestream kept
+						// a lock on the source after its last operation returned, so the
+						// application can no longer make the changes it makes without litestream.
+						last := "(none)"
+						if len(w.lsOps) > 0 {
+							last = w.lsOps[len(w.lsOps)-1]
+						}
+						w.res.Evals++
+						w.res.Violate("app-statement-blocked", "application statement %q (step %d) stays SQLITE_BUSY for %d attempts although no litestream call is in flight; the same history without litestream executes it at once. Last litestream operation: %s [%s]", short(st.SQL), i, try, last, w.cfg)
+						return errBlocked
+					}
 					return fmt.Errorf("application statement %q stays busy: %v", short(st.SQL), err)
 				}
 				time.Sleep(2 * time.Millisecond)
@@ -644,12 +717,18 @@ func runCase(run *vf.Run, raw json.RawMessage, dir string) *vf.Result {
 			_ = trt.ls.Close(cctx)
 			cancel()
 		}
+		if trt.meta != "" {
+			hist.UnmountTmpfs(trt.meta)
+		}
 	}()
 	if err := ctl.replay(ctx, s, h); err != nil {
 		res.HarnessErr = "control run: " + err.Error()
 		return res
 	}
 	if err := trt.replay(ctx, s, h); err != nil {
+		if err == errBlocked {
+			return res
+		}
 		if res.HarnessErr == "" {
 			res.HarnessErr = "treatment run: " + err.Error()
 		}
